@@ -61,9 +61,14 @@ def compact(m, w, nid, only=None):
     return w
 
 
-def lagging_snap(m, w, k=1, j=2, lag=None, leader=N1):
+def lagging_snap(m, w, k=1, j=2, lag=None, leader=N1, after=0):
     w = lagging(m, w, k, j, lag, leader)
     w = compact(m, w, leader)
+    if after:
+        # more entries after the snapshot point: the lagging node needs the snapshot AND ordinary entries
+        lag = lag or addr(m.cfg.n)
+        others = [n for n, _ in w.nodes if n != lag]
+        w = submit(m, w, leader, after, only=others)
     return w
 
 
@@ -167,6 +172,61 @@ def fig8(m, w):
     w = m.drain(w, only=[a, b], ticks=False)
     if not m.summary(w, a).leader_flag or m.summary(w, c).leader_flag or m.summary(w, b).last != 2:
         m.seed_shape_ok = False
+    return w
+
+
+def fig8_full(m, w):
+    """The complete figure-8 schedule, scripted: after `fig8`, a's old-term entry X reaches b (its own
+    no-op is lost), a is cut off, c is elected by b and overwrites position 3. On a correct
+    implementation a never applies X. Exploration then continues from the end state."""
+    a, b, c = N1, N2, N3
+    w = fig8(m, w)
+    w = m.do(w, ('T', a, m.cfg.period + 0.001))
+    # only the messages that carry X reach b (all but the last one, which carries a's no-op)
+    n = len(w.queue(a, b))
+    for _ in range(max(0, n - 1)):
+        w = m.do(w, ('D', a, b))
+    while w.queue(b, a):
+        w = m.do(w, ('D', b, a))
+    w = m.do(w, ('Z', a), ('Z', a))
+    w = m.cut(w, a, b)
+    w = m.do(w, ('R', b, c, 'free'))
+    w = m.drain(w, only=[b, c], ticks=False)
+    w = m.do(w, ('T', c, m.cfg.tmin + 0.001))
+    w = m.drain(w, only=[b, c], ticks=False)
+    w = m.do(w, ('T', c, m.cfg.tmin + 0.001))
+    w = m.drain(w, only=[b, c])
+    w = beat(m, w, c, only=[b, c], times=3)
+    if not m.summary(w, c).leader_flag:
+        m.seed_shape_ok = False
+    return w
+
+
+def ahead_full(m, w, leader=N1, lag=None):
+    """After `ahead`: two heartbeats are answered with 'retry from 4' each, so two overlapping
+    resends (prev=3, [4..7]) are in flight; the lagging node takes the first, applies, compacts its
+    log, then receives the second one, whose previous index lies before its first entry. One more
+    command follows."""
+    lag = lag or addr(m.cfg.n)
+    w = ahead(m, w, leader=leader, lag=lag)
+    hb = ('T', leader, m.cfg.period + 0.001)
+    w = m.do(w, hb, hb)
+    while w.queue(leader, lag):
+        w = m.do(w, ('D', leader, lag))
+    q = len(w.queue(lag, leader))
+    if q < 2:
+        m.seed_shape_ok = False
+        return w
+    w = m.do(w, ('D', lag, leader))          # first 'retry from 4'
+    w = m.do(w, hb)                           # resend 1
+    w = m.do(w, ('D', lag, leader))          # second 'retry from 4'
+    w = m.do(w, hb)                           # resend 2
+    w = m.do(w, ('D', leader, lag))          # lag takes resend 1
+    w = m.do(w, ('Z', lag), ('K', lag, 'free'), ('Z', lag), ('Z', lag), ('Z', lag))
+    while w.queue(leader, lag):
+        w = m.do(w, ('D', leader, lag))       # resend 2 arrives after the compaction
+    w = m.drain(w, only=[leader, lag])
+    w = submit(m, w, leader, 1)
     return w
 
 
@@ -281,7 +341,7 @@ def candidates(m, w, who=(N1, N2)):
     return w
 
 
-SEEDS = dict(voted=voted, candidates=candidates, battery_lagsnap=battery_lagsnap, ahead=ahead, lagging_newleader=lagging_newleader, m_deposed=m_deposed, split=split, version_snap=version_snap, fresh=fresh, steady=steady, lagging=lagging, lagging_snap=lagging_snap, deposed=deposed,
+SEEDS = dict(voted=voted, ahead_full=ahead_full, fig8_full=fig8_full, candidates=candidates, battery_lagsnap=battery_lagsnap, ahead=ahead, lagging_newleader=lagging_newleader, m_deposed=m_deposed, split=split, version_snap=version_snap, fresh=fresh, steady=steady, lagging=lagging, lagging_snap=lagging_snap, deposed=deposed,
              deposed_snap=deposed_snap, deposed_twice=deposed_twice, pending=pending, reconnect_pipeline=reconnect_pipeline,
              forwarded=forwarded, fig8=fig8)
 
